@@ -149,7 +149,10 @@ def print_cases(tree):
 # ---- generators ----------------------------------------------------------------------------------------------------
 HDR = ['(TEMPERATURE', '(SDFVERSION', '(TIMESCALE', '(PROGRAM', '(VERSION', '(DIVIDER', '(VOLTAGE', '(VENDOR', '(DATE']
 SEPS = ['', ' ', ' ', '\n', '\t', '  ', '\r\n', '//c\n', ' // (q)\n', '\x0c', '\n  ']
-IDSEPS = [' ', ' ', ' ', '  ', ' \t', '', '\t', '\n', ' \x0c ']
+IDSEPS = [' ', ' ', ' ', '  ', ' \t', '', '\t', '\n', ' \x0c ', '\r\n', '\n//c\n', ' //c\n', '\n //c\n', '//c\n', '\r', '\x0b', '\n\t', '\r\n// (q)\n//\n ']
+# in front of a name, inside the language (every comment directly follows a line break or comment); after a name (does not begin with a comment)
+IDSEPS_OK = [' ', ' ', '  ', ' \t', ' \x0c ', '\t', '\n', '\r\n', '\n  ', '\n//c\n', ' \n// (q)\n//\n', '\r\n//c\n\t', '\x0c', '\n \n//c\n ', '\t\n']
+AFT_OK = ['', ' ', ' \n', ' //c\n', '  ', '\t', '\n', '\r\n', '\n//c\n', '\t//c\n', '\x0c ', '\n  ']
 IDS = ['u1', 'u\\[1\\]/A', 'a/b', '"q r"', '"x"', 'A', 'n-1', 'a"b', '\tz', 'x//y', 'q_reg\\[3\\]', 'blk\\.g2/ZN', 'top/u1/Z', 'caf\xe9', '"(x)"', 'a\x0bb', 'n\xa0m', 'p\x85', 'r\x1ds']
 IDES = IDS + ['(posedge CK)', '(negedge A)', '(posedge  A )', '(x(y)', '(posedge\nCK)', '("z")']
 NUMS = ['1', '2.5', '', '-3', '.5', '0.125', '1.2.3', '--', '0.1', '12.625', '5.', '-', '.', '007', '-.5', '0.000', '123456789012.125', '1234567890123456', '-0']
@@ -165,8 +168,8 @@ def gen_text(rng, dirty=0.5):
     d = rng.random() < dirty
     pick = (lambda clean, full: rng.choice(full if d else clean))
     sp = lambda: pick(['', ' ', '\n', '\t', '  ', '\r\n', '//c\n', ' // (q)\n', '\n  '], SEPS)
-    idsp = lambda: pick([' ', ' ', '  ', ' \t', ' \x0c '], IDSEPS)
-    aft = lambda: pick(['', ' ', ' \n', ' //c\n', '  '], SEPS)                      # after a name
+    idsp = lambda: pick(IDSEPS_OK, IDSEPS)
+    aft = lambda: pick(AFT_OK, SEPS)                      # after a name
     ids = (lambda: pick(['u1', 'u\\[1\\]/A', 'a/b', '"q r"', 'A', 'n-1', 'x//y', 'q_reg\\[3\\]', 'blk\\.g2/ZN', '"(x)"'], IDS))
     ides = (lambda: pick(['u1', 'A', 'CK', '(posedge CK)', '(negedge A)', '(posedge  A )', '(posedge\nCK)', 'a"b'], IDES))
     num = lambda: pick(['1', '2.5', '', '-3', '.5', '0.125', '12.625', '5.', '007', '-.5', '0.000'], NUMS)
@@ -201,7 +204,7 @@ def gen_text(rng, dirty=0.5):
                 out += '(CELLTYPE' + nob() + ')'
             elif k < 0.45:
                 if rng.random() < 0.3:
-                    out += '(INSTANCE' + rng.choice(['', ' ']) + ')'
+                    out += '(INSTANCE' + rng.choice(['', ' ', '\n', '\r\n//c\n', '\t ']) + ')'
                 else:
                     n = ids()
                     out += '(INSTANCE' + idsp() + n + aft() + ')'
@@ -230,6 +233,227 @@ def gen_text(rng, dirty=0.5):
             out += t
             truth.append(tr)
     return out + sp() + ')' + sp() + (rng.choice(['', '//end']) if d else ''), (None if d else truth)
+
+
+# ---- structured renderings: a value of the concrete syntax `cfile` (Model/SdfText.v) together with its text --------------------------
+# a separator is a list of items: 'IgSpace' | 'IgTab' | 'IgFf' | 'IgNl' | 'IgCrNl' | ('c', comment body)
+IGN_TEXT = {'IgSpace': ' ', 'IgTab': '\t', 'IgFf': '\x0c', 'IgNl': '\n', 'IgCrNl': '\r\n'}
+IGN_B1, IGN_NL = ['IgSpace', 'IgTab', 'IgFf'], ['IgNl', 'IgCrNl']
+CBODIES = ['', 'c', ' (q) ', ' (IOPATH A Z (1:2:3))', '//', '\r', ' x\t', ')', '"']
+PLAIN_ID = ['u1', 'u\\[1\\]/A', 'a/b', 'A', 'n-1', 'x//y', '/z', 'q_reg\\[3\\]', 'caf\xe9', 'blk\\.g2/ZN', '/', 'a//']
+WRAP_ID = ['"q r"', '"x"', '"(x)"', '"//"', '"a\nb"', '" "']
+WRAP_IDE = ['(posedge CK)', '(negedge A)', '(posedge\nCK)', '(x(y)', '(//)', '( )']
+SLASH_NAMES = ['//y', '//', '//a/b']
+C_NUMS = ['1', '2.5', '', '-3', '.5', '0.125', '12.625', '5.', '007']
+C_PAYS = [[], [(True, 'SETUP '), (True, 'posedge D'), (False, ' '), (True, '0.5:0.5:0.5'), (False, ''), (False, '\n ')], [(True, ''), (False, '')],
+          [(True, 'a'), (False, 'b'), (True, ' c'), (True, 'd'), (False, 'e'), (False, ' f')]]
+DEFECTS = ['cm', 'aft', 'touch', 'slash']
+
+
+def s_text(sep):
+    return ''.join(IGN_TEXT[i] if isinstance(i, str) else '//' + i[1] + '\n' for i in sep)
+
+
+def s_coq(sep):
+    return clist(sep, lambda i: i if isinstance(i, str) else f'IgComment {cstr(i[1])}')
+
+
+def s_is0(i):
+    return not isinstance(i, str) or i in IGN_NL
+
+
+def s_ends0(sep):
+    return bool(sep) and s_is0(sep[-1])
+
+
+def s_cm_ok(sep):
+    nl = False
+    for i in sep:
+        if not isinstance(i, str) and not nl:
+            return False
+        nl = s_is0(i)
+    return True
+
+
+def g_item(rng):
+    k = rng.random()
+    return rng.choice(IGN_B1) if k < 0.4 else rng.choice(IGN_NL) if k < 0.75 else ('c', rng.choice(CBODIES))
+
+
+def g_sep(rng, n=3):
+    """any ignored text"""
+    return [g_item(rng) for _ in range(rng.choice([0, 0, 1, 1, 2, n]))]
+
+
+def g_idsep(rng, nonempty=False):
+    """ignored text in front of a name: every comment directly follows a line break or comment"""
+    out = []
+    for i in g_sep(rng, 5):
+        if not isinstance(i, str) and not s_ends0(out):
+            out.append(rng.choice(IGN_NL))
+        out.append(i)
+    if nonempty and not out:
+        out = [rng.choice(IGN_B1 + IGN_NL)]
+    assert s_cm_ok(out)
+    return out
+
+
+def g_aftsep(rng, wrapped):
+    """ignored text after a name: after a plain name it does not begin with a comment"""
+    out = g_sep(rng, 4)
+    if out and not isinstance(out[0], str) and not wrapped:
+        out.insert(0, rng.choice(IGN_B1 + IGN_NL))
+    return out
+
+
+def g_bad_comment(rng, sep):
+    """the separator with one comment put where IGNORE_0 is not running (first, or directly after a blank / tab / form feed)"""
+    pos = [k for k in range(len(sep) + 1) if not s_ends0(sep[:k])]
+    k = rng.choice(pos)
+    return sep[:k] + [('c', rng.choice(CBODIES))] + sep[k:]
+
+
+def gen_cfile(rng, defect=None):
+    """-> (coq term of type cfile, text, content tree, inside the conditions of cfile_ok?).  With `defect` (one of DEFECTS) exactly one
+    place next to a name violates the conditions: 'cm' a comment in front of a name that does not follow a line break or comment, 'aft' a
+    comment directly after a plain name, 'touch' two plain names without separator, 'slash' a name that begins with `//` after a
+    separator that ends with a line break or comment.  Everything else (well-formed names, comments without newline, header texts,
+    TIMINGCHECK payloads) stays valid."""
+    ctx = {'defect': defect}
+    # with a defect the name `//` is left out: an empty comment lexed as a name IS that name, so a misplaced empty comment followed by the
+    # name `//` (then skipped as a comment) denotes the same content by coincidence -- the file-level theorem is an implication, the
+    # exactness theorems are stated at the scanner of a name
+    slash_names = SLASH_NAMES if defect is None else [n for n in SLASH_NAMES if n != '//']
+
+    def take(*kinds):
+        if ctx['defect'] in kinds and rng.random() < 0.6:
+            d, ctx['defect'] = ctx['defect'], None
+            return d
+        return None
+
+    def name(io, sep, plain=False):
+        wrapped = (WRAP_IDE if io else WRAP_ID)
+        if not plain and rng.random() < 0.3:
+            return rng.choice(wrapped)
+        if not s_ends0(sep) and rng.random() < 0.1:
+            return rng.choice(slash_names)
+        return rng.choice(PLAIN_ID + (['a"b', '"x"'] if io else []))
+
+    def is_wrapped(io, n):
+        return n[0] == ('(' if io else '"')
+
+    def before(io, nonempty=False, plain=False):
+        """-> (separator, name), possibly with a 'cm' or 'slash' defect"""
+        d = take('cm', 'slash')
+        sep = g_idsep(rng, nonempty)
+        if d == 'cm':
+            sep = g_bad_comment(rng, sep)
+            return sep, name(io, [], plain)            # [] : no `//` name here (keep it to one defect)
+        if d == 'slash':
+            sep = sep + [rng.choice(IGN_NL + [('c', 'c')])] if not s_ends0(sep) else sep
+            if not s_cm_ok(sep):
+                sep = [rng.choice(IGN_NL)] + sep
+            return sep, rng.choice(slash_names)
+        return sep, name(io, sep, plain)
+
+    def after(io, n):
+        if not is_wrapped(io, n) and take('aft'):
+            return [('c', rng.choice(CBODIES))] + g_sep(rng)
+        return g_aftsep(rng, is_wrapped(io, n))
+
+    def triple():
+        if rng.random() < 0.2:
+            sp = g_sep(rng)
+            return f'CT0 {s_coq(sp)}', '(' + s_text(sp) + ')', []
+        sps, ns = [g_sep(rng, 2) for _ in range(3)], [rng.choice(C_NUMS) for _ in range(3)]
+        return (f'CT3 {s_coq(sps[0])} {cstr(ns[0])} {s_coq(sps[1])} {cstr(ns[1])} {s_coq(sps[2])} {cstr(ns[2])}',
+                '(' + s_text(sps[0]) + ns[0] + ':' + s_text(sps[1]) + ns[1] + ':' + s_text(sps[2]) + ns[2] + ')', ns)
+
+    def items(parts, first=None):
+        """parts: [(coq, text, ..)] -> (coq list of (sep, item), text, first separator or None)"""
+        seps = [g_sep(rng) for _ in parts]
+        if parts and first is not None:
+            seps[0] = first
+        return (clist(list(zip(seps, parts)), lambda p: f'({s_coq(p[0])}, {p[1][0]})'), ''.join(s_text(sp) + pt[1] for sp, pt in zip(seps, parts)))
+
+    def entry():
+        io = rng.random() < 0.5
+        if take('touch'):
+            (s1, a), s2, b = before(io, plain=True), [], name(io, [], plain=True)
+        else:
+            s1, a = before(io)
+            b0 = rng.random() < 0.3
+            s2, b = before(io, nonempty=not (is_wrapped(io, a) or b0))
+            if not s2 and not is_wrapped(io, a) and not is_wrapped(io, b):
+                b = rng.choice(WRAP_IDE if io else WRAP_ID)
+        ts = [triple() for _ in range(rng.randint(0, 3))]
+        aft = after(io, b)
+        tc, tt = items(ts, aft)
+        sf = g_sep(rng) if ts else aft
+        return (f'CE {"true" if io else "false"} {s_coq(s1)} {cstr(a)} {s_coq(s2)} {cstr(b)} {tc} {s_coq(sf)}',
+                ('(IOPATH' if io else '(INTERCONNECT') + s_text(s1) + a + s_text(s2) + b + tt + s_text(sf) + ')', (io, a, b, [t[2] for t in ts]))
+
+    def citem():
+        k = rng.random()
+        if k < 0.12:
+            w = rng.choice([' "x"', ' INV_X1', ' x\n', '\n"NAND2_X1" '])
+            return f'CCType {cstr(w)}', '(CELLTYPE' + w + ')', None
+        if k < 0.27:
+            sp = g_idsep(rng)
+            if take('cm'):
+                sp = g_bad_comment(rng, sp)
+            return f'CCInst0 {s_coq(sp)}', '(INSTANCE' + s_text(sp) + ')', None
+        if k < 0.55:
+            s1, n = before(False)
+            s2 = after(False, n)
+            return f'CCInst {s_coq(s1)} {cstr(n)} {s_coq(s2)}', '(INSTANCE' + s_text(s1) + n + s_text(s2) + ')', n
+        if k < 0.65:
+            sp, pay = g_sep(rng), rng.choice(C_PAYS)
+            return (f'CCTiming {s_coq(sp)} {clist(pay, lambda q: "(" + ("true" if q[0] else "false") + ", " + cstr(q[1]) + ")")}',
+                    '(TIMINGCHECK' + s_text(sp) + ''.join(('(' if o else ')') + w for o, w in pay) + ')', None)
+        es = [entry() for _ in range(rng.randint(0, 3))]
+        s1, sf, s3 = g_sep(rng), g_sep(rng), g_sep(rng)
+        ec, et = items(es)
+        return (f'CCDelay {s_coq(s1)} {ec} {s_coq(sf)} {s_coq(s3)}', '(DELAY' + s_text(s1) + '(ABSOLUTE' + et + s_text(sf) + ')' + s_text(s3) + ')', [e[2] for e in es])
+
+    def titem():
+        k = rng.random()
+        if k < 0.15:
+            kw, w = rng.choice(HDR), rng.choice([' "x"', ' 1ns', ' 1.20:1.20:1.20', '\n25'])
+            return f'CTHdr {cstr(kw)} {cstr(w)}', kw + w + ')', None
+        if k < 0.2:
+            w = rng.choice(['', ' "typ"', ' '])
+            return f'CTProcess {cstr(w)}', '(PROCESS' + w + ')', None
+        if k < 0.3:
+            s1, s2, s3, n = g_sep(rng), g_sep(rng), g_sep(rng), rng.choice(['top', 't p', 'x(y)', 'a\nb'])
+            return f'CTDesign {s_coq(s1)} {s_coq(s2)} {cstr(n)} {s_coq(s3)}', '(DESIGN' + s_text(s1) + '"' + s_text(s2) + n + '"' + s_text(s3) + ')', n
+        cs = [citem() for _ in range(rng.randint(1, 4))]
+        sf = g_sep(rng)
+        cc, ct = items(cs)
+        return f'CTCell {cc} {s_coq(sf)}', '(CELL' + ct + s_text(sf) + ')', [c[2] for c in cs if c[2] is not None]
+    while True:
+        ctx['defect'] = defect
+        ts = [titem() for _ in range(rng.randint(1, 3))]
+        if ctx['defect'] is None:
+            break
+    s0, sf, s1 = g_sep(rng), g_sep(rng), g_sep(rng)
+    tail = rng.choice([None, None, 'end', ''])
+    tc, tt = items(ts)
+    coq = f'{{| cf_s0 := {s_coq(s0)}; cf_items := {tc}; cf_sf := {s_coq(sf)}; cf_s1 := {s_coq(s1)}; cf_tail := {copt(tail, cstr)} |}}'
+    text = s_text(s0) + '(DELAYFILE' + tt + s_text(sf) + ')' + s_text(s1) + ('' if tail is None else '//' + tail)
+    return coq, text, [t[2] for t in ts if t[2] is not None], defect is None
+
+
+def cfile_cases(rng, defect=None):
+    """-> (coq cases, description, oracle failure or None): the value's text, cfile_ok, parse_sdf = lark, and lark returns the value's
+    content exactly when the value is inside the conditions"""
+    coq, text, tree, ok = gen_cfile(rng, defect)
+    got, exc, _ = real_tree(text)
+    fail = None
+    if ok:
+        fail = truth_oracle(text, tree)          # a defect that lark reads as the content anyway shows up in the Coq case (exactness)
+    case = f'cfile_case {coq} {cstr(text)} {"true" if ok else "false"} {copt(got, coq_xtree)}'
+    return [case], {'kind': 'sdf-cfile', 'text': text, 'defect': defect, 'content': tree, 'lark': got if got is not None else exc}, fail
 
 
 PIECES = ['(DELAYFILE', '(SDFVERSION', '(DESIGN', '(DATE', '(VENDOR', '(PROGRAM', '(VERSION', '(DIVIDER', '(VOLTAGE', '(PROCESS', '(TEMPERATURE',
@@ -347,6 +571,24 @@ CORNER_TEXTS = [
     '(DELAYFILE(CELL(DELAY(ABSOLUTE(IOPATH A Z (1e3:2:3))))))', '(DELAYFILE(CELL(DELAY(ABSOLUTE(IOPATH A Z (+1:2:3))))))', '(DELAYFILE(CELL(DELAY(ABSOLUTE(IOPATH A Z (\n1:\n2://c\n3))))))',
     '(DELAYFILE(CELL(DELAY(ABSOLUTE(IOPATH A Z (0.1:0.2:0.3))))))', '(DELAYFILE(CELL(DELAY(ABSOLUTE(IOPATH A Z (1:2:3)x)))))', '(DELAYFILE(CELL(DELAY(ABSOLUTE(IOPATH A Z (1:2:3)) x))))',
     '(DELAYFILE(CELL(DELAY(ABSOLUTE(IOPATH A Z (1:2:3)(4:5:6)))))) // end', '(DELAYFILE(CELL(DELAY(ABSOLUTE(IOPATH A Z (1:2:3))))))\r',
+    # the boundary of the separators next to a name (Proofs/SdfTextProofs.v sep_boundary): a comment directly after a blank in front of a name
+    # is the name, directly after a name it belongs to the name, after a line break it is skipped; a `//` name vanishes after a line break;
+    # a lone '\r' / '\v' is neither name nor ignored
+    '(DELAYFILE(CELL(INSTANCE //c\n)))', '(DELAYFILE(CELL(INSTANCE //c\nu1)))', '(DELAYFILE(CELL(INSTANCE\n//c\nu1)))', '(DELAYFILE(CELL(INSTANCE\n //c\nu1)))',
+    '(DELAYFILE(CELL(INSTANCE\n \n//c\nu1)))', '(DELAYFILE(CELL(INSTANCE\t//c\nu1)))', '(DELAYFILE(CELL(INSTANCE\x0c//c\nu1)))', '(DELAYFILE(CELL(INSTANCE//c\nu1)))',
+    '(DELAYFILE(CELL(INSTANCE\r\n//c\nu1)))', '(DELAYFILE(CELL(INSTANCE\n//c\n//d\nu1)))', '(DELAYFILE(CELL(INSTANCE\n//c\n\t//d\nu1)))',
+    '(DELAYFILE(CELL(INSTANCE "u1"//c\n)))', '(DELAYFILE(CELL(INSTANCE u1\t//c\n)))', '(DELAYFILE(CELL(INSTANCE u1\n//c\n)))', '(DELAYFILE(CELL(INSTANCE u1\r\n)))',
+    '(DELAYFILE(CELL(INSTANCE\n//y\n)))', '(DELAYFILE(CELL(INSTANCE\n//y)))', '(DELAYFILE(CELL(INSTANCE\n//y)\n)))', '(DELAYFILE(CELL(INSTANCE //y)))', '(DELAYFILE(CELL(INSTANCE//y)))',
+    '(DELAYFILE(CELL(INSTANCE\n//y\n //z\n)))', '(DELAYFILE(CELL(INSTANCE\n/y)))', '(DELAYFILE(CELL(INSTANCE\n//c\n/y)))',
+    '(DELAYFILE(CELL(INSTANCE\ru1)))', '(DELAYFILE(CELL(INSTANCE u1\r)))', '(DELAYFILE(CELL(INSTANCE\x0bu1)))', '(DELAYFILE(CELL(INSTANCE u1\x0b)))', '(DELAYFILE(CELL(INSTANCE \r u1)))',
+    '(DELAYFILE(CELL(INSTANCE\x1cu1)))', '(DELAYFILE(CELL(INSTANCE u1\x85)))', '(DELAYFILE(CELL(INSTANCE u1\xa0)))', '(DELAYFILE(CELL(INSTANCE\n\ru1)))', '(DELAYFILE(CELL(INSTANCE\n//c\r\nu1)))',
+    '(DELAYFILE(CELL(INSTANCE\r\n//c\n//d\n\t u1\t\n//e\n)))', '(DELAYFILE(CELL(DELAY(ABSOLUTE(IOPATH A(posedge B)(1:2:3))))))', '(DELAYFILE(CELL(DELAY(ABSOLUTE(IOPATH AB(1:2:3)(4:5:6))))))',
+    '(DELAYFILE(CELL(DELAY(ABSOLUTE(IOPATH(posedge A)B(1:2:3))))))', '(DELAYFILE(CELL(DELAY(ABSOLUTE(INTERCONNECT\na\n//c\nb\t(1:2:3))))))',
+    '(DELAYFILE(CELL(DELAY(ABSOLUTE(INTERCONNECT a //c\nb (1:2:3))))))', '(DELAYFILE(CELL(DELAY(ABSOLUTE(INTERCONNECT a\n//c\nb//d\n(1:2:3))))))',
+    '(DELAYFILE(CELL(DELAY(ABSOLUTE(IOPATH\n(posedge A)//c\nb(1:2:3))))))', '(DELAYFILE(CELL(DELAY(ABSOLUTE(IOPATH\n(posedge A)\n//c\nb//d\n(1:2:3))))))',
+    '(DELAYFILE(CELL(DELAY(ABSOLUTE(IOPATH\n(posedge A)\n//c\n(negedge b)//d\n(1:2:3))))))', '(DELAYFILE(CELL(DELAY(ABSOLUTE(INTERCONNECT"a"b\n(1:2:3))))))',
+    '(DELAYFILE(CELL(DELAY(ABSOLUTE(INTERCONNECT a\x0bb (1:2:3))))))', '(DELAYFILE(CELL(DELAY(ABSOLUTE(INTERCONNECT a\rb (1:2:3))))))',
+    '(DELAYFILE(CELL(INSTANCE//\n//\n)))',      # ex_coincidence: the empty comment is the name `//`, the name `//` is a comment
 ]
 DEC_TEXTS = ['0', '1', '-1', '1.5', '-1.5', '.5', '5.', '-.5', '-5.', '0.125', '0.375', '12.625', '007', '0.000', '-0', '-0.0', '00.50', '0.1', '0.3', '1.0625', '.',
              '-', '-.', '--1', '1-', '1-2', '1.2.3', '..', '1..', '.1.', '', '-1-', '100', '4.250', '123456789012.125', '123456789012345', '1234567890123456',
